@@ -450,7 +450,7 @@ def h_from_str(d: Decl, props):
         ok, val, err, calls, ptr, ln = 'PT_PARSE_OK', 'PT_PARSE_VAL', 'PT_PARSE_ERR', 'PT_CALLS', 'PT_PTR', 'PT_LEN'
         attrs = ''
     else:
-        t = d.inner
+        t = I
         pre = '        unsafe { P_OK = kani::any(); P_VAL_%s = kani::any(); P_ERR_SEL = kani::any(); P_CALLS = 0; }\n' % t.upper()
         ok, val, err, calls, ptr, ln = 'P_OK', 'P_VAL_%s' % t.upper(), 'parse_err_%s()' % t, 'P_CALLS', 'P_PTR', 'P_LEN'
         attrs = '#[kani::stub(<%s as ::core::str::FromStr>::from_str, stub_parse_%s)]\n    ' % (t, t)
@@ -478,6 +478,22 @@ def h_from_str(d: Decl, props):
                    clause='from_str(s) == match inner_parse(s) { Err(e) => Err(Parse(e)), Ok(v) => try_new(v).map_err(Validate) }; inner parser called once with exactly s; no panic')
 
 
+def generic_decls(prefix, derives, with_validation=True):
+    """generic newtypes `struct X<T: Sat>(T)` (instantiated at T = i32 by the harnesses)"""
+    out = []
+    s = Custom(name='san_gen', src='san_gen', spec='')
+    p = Custom(name='pred_gen', src='pred_gen', spec='')
+    v = Custom(name='vfn_gen', src='vfn_gen', spec='')
+    base = dict(generics='<T: Sat>', generic_args='<T>')
+    out.append(mk('%s_gen_nov' % prefix, 'any', 'T', aux=['Sat', 'MyErr'], derives=derives, **base))
+    out.append(mk('%s_gen_san_nov' % prefix, 'any', 'T', sanitizers=[Sanitizer('with', s)], aux=['Sat', 'MyErr'], derives=derives, **base))
+    if with_validation:
+        out.append(mk('%s_gen_san_pred' % prefix, 'any', 'T', sanitizers=[Sanitizer('with', s)], validators=[Validator('predicate', fn=p)],
+                      aux=['Sat', 'MyErr'], derives=derives, **base))
+        out.append(mk('%s_gen_custom' % prefix, 'any', 'T', custom_validation=v, custom_error='MyErr', aux=['Sat', 'MyErr'], derives=derives, **base))
+    return out
+
+
 def fromstr_decls(tier='quick'):
     out = []
     types = (INT_TYPES + FLOAT_TYPES) if tier == 'thorough' else ['i32', 'u8', 'i128', 'usize', 'f32', 'f64']
@@ -503,6 +519,7 @@ def fromstr_decls(tier='quick'):
     out.append(mk('fs_point_san_pred', 'any', 'Point', sanitizers=[Sanitizer('with', sp)], validators=[Validator('predicate', fn=p)],
                   aux=pa + [pn, sn], derives=['Debug', 'FromStr']))
     out.append(mk('fs_point_san_nov', 'any', 'Point', sanitizers=[Sanitizer('with', sp)], aux=pa + [sn], derives=['Debug', 'FromStr']))
+    out += generic_decls('fs', ['Debug', 'FromStr'])
     for d in out:
         d.verus = False
         d.kani = True
@@ -617,6 +634,7 @@ def serde_decls(tier='quick'):
         out.append(mk('sd_%s_custom' % t, fam, t, custom_validation=v, custom_error='MyErr', aux=[n4, 'MyErr'], derives=sd))
         if fl:
             out.append(mk('sd_%s_bounds_nofinite' % t, fam, t, validators=[Validator('greater_or_equal', bl)], aux=[n1], derives=sd))
+    out += generic_decls('sd', sd)
     for d in out:
         d.verus = False
         d.kani = True
@@ -713,6 +731,23 @@ def h_arbitrary_float(d: Decl, props, nbytes=None, unwind=None, assume_bounds=No
             '            Err(_) => {}\n        }\n')
     return Harness(d, 'Arbitrary::arbitrary' + tag, props, body, attrs='#[kani::unwind(%d)]\n    ' % (unwind or (n + 3)),
                    clause='forall byte strings: arbitrary(u) terminates, is Err or Ok(v) with v valid; no panic')
+
+
+def h_arbitrary_any(d: Decl, props):
+    """other/generic inner types: arbitrary() == new(<Inner as Arbitrary>::arbitrary(same bytes))"""
+    S = concrete_self(d)
+    I = concrete_inner(d)
+    body = ('        let bytes: [u8; 5] = kani::any();\n        let len: usize = kani::any();\n        kani::assume(len <= 5);\n'
+            '        let mut u = arbitrary::Unstructured::new(&bytes[..len]);\n'
+            '        let mut u2 = arbitrary::Unstructured::new(&bytes[..len]);\n'
+            '        let got = <%s as arbitrary::Arbitrary>::arbitrary(&mut u);\n' % S +
+            '        let inner = <%s as arbitrary::Arbitrary>::arbitrary(&mut u2);\n' % I +
+            '        match (got, inner) {\n'
+            '            (Ok(v), Ok(raw)) => assert!(v.into_inner() == ref_%s::sanitize(raw), "arbitrary() == new(inner arbitrary value): the sanitizers are applied"),\n' % d.id +
+            '            (Err(_), Err(_)) => {},\n'
+            '            _ => assert!(false, "arbitrary() fails exactly when the inner type\'s arbitrary() fails"),\n        }\n')
+    return Harness(d, 'Arbitrary::arbitrary', props, body, attrs='#[kani::unwind(8)]\n    ',
+                   clause='forall byte strings: arbitrary(u) == <Inner>::arbitrary(u).map(new)   (no validation is possible for other types)')
 
 
 def arbitrary_int_decls(tier='quick'):
@@ -1081,7 +1116,7 @@ def harnesses_for(prop, tier, seed):
                 hs.append(h_default(d, [prop], valid=not d.note.startswith('invalid-default')))
     elif prop == 'C06':
         decls = fromstr_decls(tier)
-        extra = parse_stub_items(sorted({d.inner for d in decls if d.family in ('int', 'float')}))
+        extra = parse_stub_items(sorted({concrete_inner(d) for d in decls if concrete_inner(d) in INT_TYPES + FLOAT_TYPES}))
         for d in decls:
             hs.append(h_from_str(d, [prop]))
     elif prop in ('C04', 'C10'):
@@ -1128,7 +1163,14 @@ def harnesses_for(prop, tier, seed):
                 hs.append(h_arbitrary_float(d, [prop], assume_bounds='sym_lo_%s().is_finite() && sym_hi_%s().is_finite() && { let w: %s = kani::any(); !w.is_nan() && ref_%s::valid(&w) }' % (t, t, t, d.id), tag='(any finite bounds, non-empty valid set)'))
             else:
                 hs.append(h_arbitrary_float(d, [prop]))
-        decls = di + df
+        sm = Custom(name='san_m', src='san_m', spec='')
+        dg = [mk('arb_any_nov', 'any', 'Meters', aux=['Meters'], derives=['Debug', 'Arbitrary']),
+              mk('arb_any_san_nov', 'any', 'Meters', sanitizers=[Sanitizer('with', sm)], aux=['Meters'], derives=['Debug', 'Arbitrary']),
+              mk('arb_gen_nov', 'any', 'T', generics='<T>', generic_args='<T>', derives=['Debug', 'Arbitrary'])]
+        for d in dg:
+            d.verus = False
+            hs.append(h_arbitrary_any(d, [prop]))
+        decls = di + df + dg
     elif prop == 'C14':
         decls = [d for d in arbitrary_int_decls(tier) if not d.sanitizers]
         for d in decls:
